@@ -23,6 +23,8 @@ CONCS = {
     "str": lambda i: "a%d" % i,
     "int": lambda i: 1000 + i,
     "tuple": lambda i: (i, "t"),
+    # hashable values that are themselves collections (a mapping's value must be taken as ONE value)
+    "frozenset": lambda i: frozenset({i, 200 + i}),
 }
 
 
@@ -487,7 +489,7 @@ def main(tier, seed):
         stats.extra["graph_edges_" + drv_cls.subject.split(".")[1]] = g.n_edges
         for cn in concs:
             core.replay_graph_generic(g, drv_cls(cn, U), verdict, stats)
-        core.replay_walks(g, drv_cls(concs[0], U), verdict, stats, n_walks=2000 if thorough else 300, length=20, seed=seed)
+        core.replay_walks(g, drv_cls("frozenset", U), verdict, stats, n_walks=2000 if thorough else 300, length=20, seed=seed)
     n = 3000 if thorough else 300
     canary(stats)
     core.validate_traces_generic(SPECDIR, "BidictTrace.tla", "BidictTrace.cfg", clean(rec_oto(n, 40, seed), OTO_BAD),
